@@ -13,6 +13,13 @@ import (
 func OracleC01() *Oracle {
 	var out []byte
 	return &Oracle{
+		Op: func(h *Hist, name string) {
+			// bytes the reader handed out are bytes fed: the parser asked for them with a slice it chose itself,
+			// so every one of them has to end up in the stream the blocks are compared with
+			if name == "readfrom" && h.Last.N != h.Last.Given {
+				h.Fail("readfrom-lost", "ReadFrom stored %d of the %d bytes its reader handed out (err %v): bytes fed never appear in a block", h.Last.N, h.Last.Given, h.Last.Err)
+			}
+		},
 		Parse: func(h *Hist, ev *ParseEv) {
 			if ev.Nil || ev.Err != nil {
 				return
